@@ -505,6 +505,45 @@ def r6_8(ctx):
               "read_file does not normalise CRLF through replace_crlf")
 
 
+def r6_12(ctx):
+    """fence info string: the inline configuration starts at the first `{` of the text behind the backticks (attached or separated
+    by blanks), the language is what precedes it; no other split (e.g. at whitespace) decides what the language is"""
+    f = ctx.prog.fn("extract_code_block_start")
+    o = Origins(f)
+    brace, other = [], []
+    for bb, t in f.calls():
+        m = mname(t)
+        if m in ("str::find", "str::split_once", "str::rfind", "str::rsplit_once", "str::split", "str::splitn", "str::split_whitespace", "str::split_ascii_whitespace",
+                 "str::split_terminator", "str::char_indices", "Iterator::position"):
+            pat = peel(o.operand(t["args"][1])) if len(t["args"]) > 1 else None
+            is_brace = pat is not None and pat.kind == "const" and (pat.a.as_char() == "{" or pat.a.as_str() == "{")
+            if is_brace and m in ("str::find", "str::split_once"):
+                brace.append((bb, m))
+            else:
+                other.append((bb, m, pat.show()[:40] if pat is not None else ""))
+    ctx.check(len(brace) == 1, "config-starts-at-brace", f.where(), "the inline configuration is located with find/split_once('{') on the info string",
+              "the info string is not split at its first `{` (found %s / %s): ```lang{..} attached to the language is no longer read as language + configuration, "
+              "the block is taken for a foreign language and its test silently dropped" % ([m for _, m in brace], [(m, p_) for _, m, p_ in other]))
+    ctx.check(not other, "no-other-split", f.where(), "no other split of the info string decides the language",
+              "the info string is also split by %s" % [(m, p_) for _, m, p_ in other])
+    if len(brace) == 1:
+        bb, m = brace[0]
+        # the configuration component of every Some(..) result on the found-edge derives from that position
+        n_cfg = 0
+        for d in f.defs.get(0, []):
+            tree = o._def(d, 0, ())
+            if tree.kind == "agg" and tree.a[0].endswith("Some"):
+                tup = peel(tree.kids[0])
+                if tup.kind == "agg" and len(tup.kids) == 3:
+                    cfg = peel(tup.kids[2])
+                    if cfg.kind == "const":
+                        continue
+                    n_cfg += 1
+                    ctx.check(any(n.kind == "call" and n.at == (bb, "term") for n in cfg.walk()), "config-from-brace", f.loc(d[0]),
+                              "the configuration text is the info string from the `{` on", "the configuration text is %s" % cfg.show()[:80])
+        ctx.check(n_cfg >= 1, "config-result", f.where(), "a result with a non-empty configuration exists")
+
+
 def run(ctx):
     ctx.run_rule("R6.1", "MarkdownIterator::next: once a line is consumed no path ends the iteration (no `?`/None after the first read); parse consumes all tokens [E-PATH]", r6_1, floor=2)
     ctx.run_rule("R6.2", "no character count is used as a str byte offset in src/parsers [E-UNIT, crate-wide dataflow with summaries]", r6_2, floor=1)
@@ -515,5 +554,6 @@ def run(ctx):
     ctx.run_rule("R6.7", "parse feeds every code line to add_testcase_body; end_testcase builds the TestCase from the parser state [E-FLOW]", r6_7, floor=7)
     ctx.run_rule("R6.10", "line parser: `$ ` starts and `> ` continues a command (exact prefixes), body text stored unmodified, expectation / exit-code lines unmodified (shared with C07 R7.2) [E-FLOW]", r6_10, floor=4)
     ctx.run_rule("R6.11", "total parsing: no unwrap/expect on a fallible text conversion in parsers / expectation / rules / config (shared with C07 R7.5) [E-SITE]", c07.total_parsing_rules, floor=5)
+    ctx.run_rule("R6.12", "fence info string: configuration = from the first `{` on, language = what precedes it; no other split [E-TABLE of accepted forms]", r6_12, floor=3)
     ctx.run_rule("R6.9", "closing-fence predicate is a prefix test against the opener's fence (equality would reject longer closing fences) [E-TABLE of accepted forms]", r6_9, floor=3)
     ctx.run_rule("R6.8", "read_file normalises CRLF through replace_crlf before parsing [E-FLOW]", r6_8, floor=1)
